@@ -57,6 +57,7 @@ type c20prog struct {
 	Rep   int   `json:"rep,omitempty"` // uniform chain: Word holds one kind, repeated Rep times
 	Pad   int   `json:"pad,omitempty"` // number of unrelated functions declared before the chain (name indexes and line numbers beyond 8 bits)
 	Lit   bool  `json:"lit,omitempty"` // a function literal precedes the fault in the innermost function
+	Deep  bool  `json:"deep,omitempty"` // the package lives at import path lib/c (directory path differs from the package name)
 }
 
 func (p c20prog) word() []int {
@@ -273,7 +274,13 @@ func c20exec(p c20prog, optimize bool) (got string, want string, src string) {
 	want = c20fmt(w)
 	m := goat.New()
 	defer m.Close()
-	lr := m.Load(goat.FS(map[string]string{"c/c.go": src}), "c")
+	files, dir := map[string]string{"c/c.go": src}, "c"
+	if p.Deep {
+		// function names in positions use the package-clause name (c.F0), globals the import path (lib/c.F0)
+		files, dir = map[string]string{"lib/c/c.go": src}, "lib/c"
+		entry = "lib/" + entry
+	}
+	lr := m.Load(goat.FS(files), dir)
 	if lr.Failed() {
 		return "LOAD FAILED " + lr.String(), want, src
 	}
@@ -329,7 +336,7 @@ func c20progs(thorough bool) []c20prog {
 			if f.expr != "" {
 				hi = (fi + len(w)) % len(c20hosts)
 			}
-			out = append(out, c20prog{Word: w, Fault: fi, Host: hi, Pad: 400}, c20prog{Word: w, Fault: fi, Host: hi, Lit: true}, c20prog{Word: w, Fault: fi, Host: hi, Pad: 300, Lit: true})
+			out = append(out, c20prog{Word: w, Fault: fi, Host: hi, Pad: 400}, c20prog{Word: w, Fault: fi, Host: hi, Lit: true}, c20prog{Word: w, Fault: fi, Host: hi, Pad: 300, Lit: true}, c20prog{Word: w, Fault: fi, Host: hi, Deep: true})
 		}
 	}
 	// uniform chains of every depth 4..30
